@@ -227,6 +227,106 @@ func c06Concurrent(c *ctx) {
 		if n, capacity := gc.VerifLen(); n > capacity {
 			c.R.Violate("c06:globcache-over-capacity", fmt.Sprintf("proxy cache holds %d entries, capacity %d", n, capacity), nil)
 		}
+		// ---------- phase D: exact share over lookups that go on while the table is replaced ----------
+		// the weighted routes stay as they are, an unrelated route changes with every replacement (what any change of any
+		// service in the registry does); whole cycles of lookups through GetTable, first from one goroutine that replaces
+		// the table before every lookup, then from 64 goroutines next to a writer
+		if round < 2 || c.thorough() {
+			route.SetTable(t)
+			gen := 0
+			replace := func() {
+				gen++
+				if nt, err := newTable(script + fmt.Sprintf("\nroute add unrelated u%d.test/ http://10.99.0.1:80/", gen)); err == nil {
+					route.SetTable(nt)
+					c.R.Count("table_replacements", 1)
+				}
+			}
+			gcD := route.NewGlobCache(32)
+			for _, variant := range []string{"sequential", "concurrent"} {
+				dcounts := make([]map[string]*atomic.Int64, len(c06Weights))
+				for k := range c06Weights {
+					dcounts[k] = map[string]*atomic.Int64{}
+					for h := range counts[k] {
+						dcounts[k][h] = new(atomic.Int64)
+					}
+				}
+				lookup := func(k, g, i int) bool {
+					req := &http.Request{Host: fmt.Sprintf("w%d.test", k), URL: &url.URL{Path: fmt.Sprintf("/d/g%d/i%d", g, i)}, Header: http.Header{}}
+					var x *route.Target
+					pmsg := safely(func() { x = route.GetTable().Lookup(req, "", pickRR, match, gcD, false) })
+					c.R.Eval(1)
+					if pmsg != "" || x == nil || dcounts[k][x.URL.Host] == nil {
+						if !failed.Swap(true) {
+							c.R.Violate("c06:weighted-wrong-target", fmt.Sprintf("lookup for w%d.test during replacement returned %v %s", k, x, pmsg), nil)
+						}
+						return false
+					}
+					dcounts[k][x.URL.Host].Add(1)
+					return true
+				}
+				if variant == "sequential" {
+					for k := range c06Weights {
+						if ringLen[k] > 100 {
+							continue // one table per lookup: short rings only
+						}
+						for i := 0; i < cycles[k]*ringLen[k]/10*10 && i < 40*ringLen[k]; i++ {
+							replace()
+							lookup(k, 0, i)
+						}
+					}
+				} else {
+					stopD := make(chan struct{})
+					var dw sync.WaitGroup
+					dw.Add(1)
+					go func() {
+						defer dw.Done()
+						for {
+							select {
+							case <-stopD:
+								return
+							default:
+							}
+							replace()
+							time.Sleep(200 * time.Microsecond)
+						}
+					}()
+					for g := 0; g < G; g++ {
+						wg.Add(1)
+						go func(g int) {
+							defer wg.Done()
+							for k := range c06Weights {
+								for i := g; i < cycles[k]*ringLen[k]; i += G {
+									done := mark(0, g, i)
+									ok := lookup(k, g, i)
+									done()
+									if !ok {
+										return
+									}
+								}
+							}
+						}(g)
+					}
+					wg.Wait()
+					close(stopD)
+					dw.Wait()
+				}
+				for k := range c06Weights {
+					total := int64(0)
+					for _, n := range dcounts[k] {
+						total += n.Load()
+					}
+					if total == 0 || ringLen[k] == 0 || total%int64(ringLen[k]) != 0 {
+						continue
+					}
+					for h, n := range dcounts[k] {
+						if want := total / int64(ringLen[k]) * int64(slots[k][h]); n.Load() != want {
+							c.R.Violate("c06:rr-share-not-exact:across-table-replacement:"+variant, fmt.Sprintf("round %d, %s lookups while the table is replaced (route w%d.test itself unchanged): target %s picked %d times in %d lookups, exact share is %d (ring %d, slots %d)", round, variant, k, h, n.Load(), total, want, ringLen[k], slots[k][h]), map[string]any{"route": k})
+						}
+					}
+					c.R.Count("share_checks_across_replacement", 1)
+				}
+			}
+		}
 		c.R.Count("rounds", 1)
 	}
 	runtime.GOMAXPROCS(16)
